@@ -304,7 +304,7 @@ def check(pid, tier):
             wk, bk_cart, bk_grid = quiet_call(BKVectors.find_bk_vectors, B, N)
         except RuntimeError as e:
             nraise += 1
-            rep.violation("find_bk_vectors:no_stencil_found",
+            rep.violation(f"find_bk_vectors:no_stencil_found:{lat}:{'x'.join(str(int(n)) for n in N)}",
                           dict(what="BKVectors.find_bk_vectors raised although the specification proves that the search box contains a complete "
                                     "set of shells (the Wannier90 procedure finds it)", lattice=lat, recip_lattice=B.tolist(), mp_grid=list(N),
                                error=str(e)[:200], model_of_code_also_fails=(lat, N) in model_fail))
@@ -359,7 +359,7 @@ def check(pid, tier):
                 bkv = run_from_kpoints(B, N, kpts, kptirr)
             except RuntimeError as e:
                 if "Could not find a complete set" in str(e):
-                    rep.violation("find_bk_vectors:no_stencil_found",
+                    rep.violation(f"find_bk_vectors:no_stencil_found:{lat}:{'x'.join(str(int(n)) for n in N)}",
                                   dict(what="BKVectors.from_kpoints raised: no complete set of b-vectors found", lattice=lat,
                                        recip_lattice=B.tolist(), mp_grid=list(N), error=str(e)[:200]))
                     nraise += 1
